@@ -201,6 +201,10 @@ class SymbolKindTable:
                         tbl[name] = kind
 
         else:
+            # A new entry may refine kinds that were already derived from
+            # partial knowledge (e.g. of a sum with a then-unknown term), so
+            # it warrants another sweep just like a changed entry does.
+            self._changed = True
             tbl[name] = kind
 
     def get(self, phase_name, name):
